@@ -61,6 +61,24 @@ Proof.
   - intros H. cbn [map]. rewrite !cnt_cons. specialize (IH H). lia.
 Qed.
 
+(* removing all entries with the key of x: the other keys keep their counts *)
+Lemma cnt_drop_key {A} (f : A -> N) r v l :
+  cnt r (map f (filter (fun y => negb (N.eqb (f y) v)) l)) = if N.eqb r v then 0%nat else cnt r (map f l).
+Proof.
+  induction l as [|a l IH]; [cbn; destruct (r =? v); reflexivity|].
+  cbn [filter map]. destruct (N.eqb_spec (f a) v) as [E|E]; cbn [negb map]; rewrite ?cnt_cons, IH.
+  - destruct (N.eqb_spec r v); [reflexivity|]. destruct (N.eqb_spec r (f a)); [congruence|reflexivity].
+  - destruct (N.eqb_spec r v); [|reflexivity]. destruct (N.eqb_spec r (f a)); [congruence|reflexivity].
+Qed.
+
+Lemma cnt_drop_in {A} (f : A -> N) r x l :
+  In x l ->
+  (cnt r (map f (filter (fun y => negb (N.eqb (f y) (f x))) l)) + (if N.eqb r (f x) then 1 else 0) <= cnt r (map f l))%nat.
+Proof.
+  intros H. rewrite cnt_drop_key. destruct (N.eqb_spec r (f x)) as [->|]; [|lia].
+  assert (1 <= cnt (f x) (map f l))%nat by (apply cnt_pos_in; apply in_map; exact H). lia.
+Qed.
+
 Lemma find_in {A} (g : A -> bool) l x : find g l = Some x -> In x l /\ g x = true.
 Proof. apply find_some. Qed.
 
@@ -191,8 +209,8 @@ Proof. constructor; intros; cbn [andb]; rewrite ?terms_nil; try lia; try (split;
 
 Ltac unf := unfold cd, ca, cp, cf in *.
 Ltac simp_sets :=
-  cbn [peers active inb dials pouts futs rdrs rsps next_rid cancelled
-       set_peers set_active set_inb set_dials set_pouts set_futs set_rdrs set_rsps set_next_rid set_cancelled] in *.
+  cbn [peers active inb dials pouts futs rdrs rsps next_rid
+       set_peers set_active set_inb set_dials set_pouts set_futs set_rdrs set_rsps set_next_rid] in *.
 
 (* ---- settle / complete ---- *)
 Lemma settle_Moves s p rid res :
@@ -225,12 +243,12 @@ Lemma complete_Moves s f res :
   (forall g, In g (futs s') -> In g (futs s)).
 Proof.
   unfold complete.
-  pose proof (settle_Moves (set_futs s (drop_fut (f_chan f) (futs s))) (f_peer f) (q_rid (f_req f)) res) as S.
+  pose proof (settle_Moves (set_futs s (drop_fut f (futs s))) (f_peer f) (q_rid (f_req f)) res) as S.
   destruct (settle _ _ _ _) as [s' o]. destruct S as (M & P & F & N & A1 & A2). simp_sets.
   split; [|split; [auto|split; [auto|split; [auto|split; [auto|]]]]].
   - destruct M as [M1 M2 M3]. constructor.
     + intros r. specialize (M1 r). unf. simp_sets. lia.
-    + intros r. specialize (M2 r). unf. simp_sets. pose proof (drop_fut_cnt r (f_chan f) (futs s)). lia.
+    + intros r. specialize (M2 r). unf. simp_sets. pose proof (drop_fut_cnt r f (futs s)). lia.
     + simp_sets. exact M3.
   - intros g Hg. rewrite F in Hg. unfold drop_fut in Hg. apply filter_In in Hg. tauto.
 Qed.
@@ -258,7 +276,7 @@ Proof.
 Qed.
 Lemma map_rid_mark_cancel c l : map rid_f (mark_cancel c l) = map rid_f l.
 Proof.
-  unfold mark_cancel. rewrite map_map. apply map_ext. intros f. destruct (f_chan f =? c); reflexivity.
+  unfold mark_cancel. rewrite map_map. apply map_ext. intros f. destruct (q_rid (f_req f) =? c); reflexivity.
 Qed.
 
 Lemma number_pouts_rids p sid l : map rid_po (number_pouts p sid l) = map rid_d l.
@@ -366,15 +384,13 @@ Proof.
 Qed.
 
 (* dropping the found pending-outbound entry: the others have other request ids *)
-Lemma drop_po_other s tr sid po po' :
-  Inv s tr -> find_po sid (pouts s) = Some po -> In po' (drop_po sid (pouts s)) ->
+Lemma drop_po_other s tr po po' :
+  Inv s tr -> In po' (drop_po po (pouts s)) ->
   In (po_peer po', rid_po po') (active s) /\ (po_peer po', rid_po po') <> (po_peer po, rid_po po).
 Proof.
-  intros I F H. split.
-  - apply (inv_po _ _ I). unfold drop_po in H. apply filter_In in H. tauto.
-  - intros E. injection E as _ E.
-    pose proof (cnt_find_other rid_po (fun x => po_sid x =? sid) (pouts s) po po' F H E) as C.
-    pose proof (inv_ctx _ _ I (rid_po po)). unf. lia.
+  intros I H. unfold drop_po in H. apply filter_In in H. destruct H as [H1 H2]. split.
+  - exact (inv_po _ _ I _ H1).
+  - intros E. injection E as _ E. unfold rid_po in E. rewrite E, N.eqb_refl in H2. discriminate.
 Qed.
 
 Lemma openfail_Inv s tr sid u :
@@ -385,11 +401,11 @@ Proof.
   pose proof (find_in _ _ _ F) as [Hin _].
   pose proof (inv_po _ _ I po Hin) as Hact.
   pose proof (fun r => cnt_removeP r _ _ Hact) as R. cbn [snd] in R.
-  pose proof (fun r => cnt_find_drop rid_po (fun x => po_sid x =? sid) r (pouts s) po F) as D.
+  pose proof (fun r => cnt_drop_in rid_po r po (pouts s) Hin) as D.
   eapply (Inv_step false); [exact I| |].
   - constructor; [intros r|intros r| ]; unf; simp_sets; cbn [andb]; rewrite ?terms_one_fail; try specialize (R r); try specialize (D r);
       unfold rid_po, drop_po in *; try lia; try (split; [lia|discriminate]).
-  - simp_sets. intros po' H. destruct (drop_po_other _ _ _ _ _ I F H) as [A B].
+  - simp_sets. intros po' H. destruct (drop_po_other _ _ _ _ I H) as [A B].
     apply in_removeP. split; [exact A|exact B].
 Qed.
 
@@ -451,25 +467,25 @@ Lemma opened_Inv cf0 s tr sid c gate now :
 Proof.
   intros I. unfold h_opened. destruct (find_po sid (pouts s)) as [po|] eqn:F; cbn [fst snd];
     [|rewrite app_nil_r; exact I].
-  pose proof (fun r => cnt_find_drop rid_po (fun x => po_sid x =? sid) r (pouts s) po F) as D.
+  pose proof (fun r => cnt_drop_in rid_po r po (pouts s) (proj1 (find_in _ _ _ F))) as D.
   (* dropping the entry alone *)
-  assert (M0 : Moves false s (set_pouts s (drop_po sid (pouts s))) []).
+  assert (M0 : Moves false s (set_pouts s (drop_po po (pouts s))) []).
   { constructor; [intros r|intros r|]; unf; simp_sets; cbn [andb]; rewrite ?terms_nil; try specialize (D r);
-      unfold drop_po; try lia; try (split; [lia|discriminate]). }
+      unfold rid_po, drop_po in *; try lia; try (split; [lia|discriminate]). }
   assert (Hsettle : forall res,
-             Inv (fst (settle (set_pouts s (drop_po sid (pouts s))) (po_peer po) (q_rid (po_req po)) res))
-                 (tr ++ snd (settle (set_pouts s (drop_po sid (pouts s))) (po_peer po) (q_rid (po_req po)) res))).
-  { intros res. pose proof (settle_Moves (set_pouts s (drop_po sid (pouts s))) (po_peer po) (q_rid (po_req po)) res) as S.
+             Inv (fst (settle (set_pouts s (drop_po po (pouts s))) (po_peer po) (q_rid (po_req po)) res))
+                 (tr ++ snd (settle (set_pouts s (drop_po po (pouts s))) (po_peer po) (q_rid (po_req po)) res))).
+  { intros res. pose proof (settle_Moves (set_pouts s (drop_po po (pouts s))) (po_peer po) (q_rid (po_req po)) res) as S.
     destruct (settle _ _ _ _) as [s' o]. cbn [fst snd]. destruct S as (M & P & _ & _ & A1 & A2). simp_sets.
     eapply (Inv_step false); [exact I|exact (Moves_trans _ _ _ _ _ M0 M)|].
-    rewrite P. intros po' H. destruct (drop_po_other _ _ _ _ _ I F H) as [A B].
+    rewrite P. intros po' H. destruct (drop_po_other _ _ _ _ I H) as [A B].
     apply A2; [exact A|exact B]. }
   assert (Hpush : forall g o, rid_f g = rid_po po -> (forall r, terms r o = 0%nat) ->
-             Inv (set_futs (set_pouts s (drop_po sid (pouts s))) (futs (set_pouts s (drop_po sid (pouts s))) ++ [g])) (tr ++ o)).
+             Inv (set_futs (set_pouts s (drop_po po (pouts s))) (futs (set_pouts s (drop_po po (pouts s))) ++ [g])) (tr ++ o)).
   { intros g o E T. eapply (Inv_step false); [exact I| |].
     - constructor; [intros r|intros r|]; unf; simp_sets; cbn [andb]; rewrite ?T, ?map_app, ?cnt_app; cbn [map];
-        rewrite ?E, ?cnt_cons, ?cnt_nil; try specialize (D r); unfold drop_po in *; try lia; try (split; [lia|discriminate]).
-    - simp_sets. intros po' H. exact (proj1 (drop_po_other _ _ _ _ _ I F H)). }
+        rewrite ?E, ?cnt_cons, ?cnt_nil; try specialize (D r); unfold rid_po, drop_po in *; try lia; try (split; [lia|discriminate]).
+    - simp_sets. intros po' H. exact (proj1 (drop_po_other _ _ _ _ I H)). }
   destruct (max_size cf0 <? q_len (po_req po)); [apply Hsettle|].
   destruct gate as [|[g|g|]]; try apply Hsettle; apply Hpush; try reflexivity.
 Qed.
@@ -544,15 +560,11 @@ Lemma cancel_Inv s tr rid :
   Inv s tr -> Inv (fst (h_cancel s rid)) (tr ++ snd (h_cancel s rid)).
 Proof.
   intros I. unfold h_cancel.
-  assert (I0 : Inv (set_cancelled s (rid :: cancelled s)) tr).
-  { rewrite <- (app_nil_r tr). eapply Inv_same_ledger; [exact I| |reflexivity].
-    unfold same_ledger. simp_sets. repeat split; lia. }
-  simp_sets.
-  destruct (find _ (futs s)) as [f|] eqn:F; cbn [fst snd]; [|rewrite app_nil_r; exact I0].
+  destruct (find _ (futs s)) as [f|] eqn:F; cbn [fst snd]; [|rewrite app_nil_r; exact I].
   apply find_some in F. destruct F as [Hf _].
   destruct (f_wait f); cbn [fst snd].
-  - exact (proj1 (complete_Inv _ tr f _ I0 (fut_in_not_po _ _ _ I0 Hf))).
-  - apply Inv_futs_rids; [exact I0|apply map_rid_mark_cancel|reflexivity].
+  - exact (proj1 (complete_Inv _ tr f _ I (fut_in_not_po _ _ _ I Hf))).
+  - apply Inv_futs_rids; [exact I|apply map_rid_mark_cancel|reflexivity].
 Qed.
 
 (* ---- inbound side: never touches the ledger ---- *)
@@ -699,4 +711,649 @@ Theorem at_most_one cf0 evs r :
 Proof.
   pose proof (run_Inv cf0 evs (init_pst, init_env) [] Inv_init) as I. cbn [app] in I.
   pose proof (inv_once _ _ I r). lia.
+Qed.
+
+(* ------------------------------------------------------------------ liveness part of the ledger *)
+
+Definition owed (r : N) (s : pst) : Prop := (1 <= cd r s + ca r s)%nat.
+Definition answered (r : N) (o : list out) : Prop := (1 <= terms r o)%nat.
+Definition nosent (o : list out) : Prop := forall r, ~ In (OSent r) o.
+
+(* cs = the ids the user asked to cancel so far *)
+Record Inv2 (cs : list N) (s : pst) (tr : list out) : Prop := mkInv2 {
+  inv_sent : forall r, In (OSent r) tr -> owed r s \/ answered r tr \/ In r cs;
+  inv_cancel : forall f, In f (futs s) -> f_cancel f = true -> In (rid_f f) cs
+}.
+
+Record Keeps (cs : list N) (s s' : pst) (o : list out) : Prop := mkKeeps {
+  kp_owed : forall r, owed r s -> owed r s' \/ answered r o \/ In r cs;
+  kp_sent : forall r, In (OSent r) o -> owed r s' \/ answered r o \/ In r cs;
+  kp_futs : forall g, In g (futs s') -> In g (futs s) \/ f_cancel g = false \/ In (rid_f g) cs
+}.
+
+Lemma Keeps_Inv2 cs cs' s s' tr o :
+  Inv2 cs s tr -> Keeps cs' s s' o -> incl cs cs' -> Inv2 cs' s' (tr ++ o).
+Proof.
+  intros [F G] [K1 K2 K3] Hi. constructor.
+  - intros r H. unfold answered in *. rewrite terms_app. apply in_app_or in H. destruct H as [H|H].
+    + destruct (F r H) as [A|[A|A]].
+      * destruct (K1 r A) as [B|[B|B]]; [left; exact B|right; left; lia|right; right; exact B].
+      * right. left. lia.
+      * right. right. apply Hi. exact A.
+    + destruct (K2 r H) as [B|[B|B]]; [left; exact B|right; left; lia|right; right; exact B].
+  - intros g Hg Hc. destruct (K3 g Hg) as [A|[A|A]]; [apply Hi; exact (G g A Hc)|congruence|exact A].
+Qed.
+
+Lemma Keeps_trans cs s s1 s2 o1 o2 :
+  Keeps cs s s1 o1 -> Keeps cs s1 s2 o2 -> Keeps cs s s2 (o1 ++ o2).
+Proof.
+  intros [A1 A2 A3] [B1 B2 B3]. constructor; unfold answered in *.
+  - intros r H. rewrite terms_app. destruct (A1 r H) as [X|[X|X]]; [|right; left; lia|right; right; exact X].
+    destruct (B1 r X) as [Y|[Y|Y]]; [left; exact Y|right; left; lia|right; right; exact Y].
+  - intros r H. rewrite terms_app. apply in_app_or in H. destruct H as [H|H].
+    + destruct (A2 r H) as [X|[X|X]]; [|right; left; lia|right; right; exact X].
+      destruct (B1 r X) as [Y|[Y|Y]]; [left; exact Y|right; left; lia|right; right; exact Y].
+    + destruct (B2 r H) as [Y|[Y|Y]]; [left; exact Y|right; left; lia|right; right; exact Y].
+  - intros g Hg. destruct (B3 g Hg) as [X|X]; [|right; exact X]. exact (A3 g X).
+Qed.
+
+Lemma Keeps_refl cs s : Keeps cs s s [].
+Proof. constructor; [intros r H; left; exact H|intros r []|intros g H; left; exact H]. Qed.
+
+Lemma Keeps_same cs s s' o :
+  same_ledger s s' -> nosent o -> Keeps cs s s' o.
+Proof.
+  intros (D & A & P & F & N) Hn. constructor.
+  - intros r H. left. unfold owed in *. unf. rewrite D, A. exact H.
+  - intros r H. destruct (Hn r H).
+  - intros g H. left. rewrite <- F. exact H.
+Qed.
+
+Lemma cnt_removeP_ne r x l : r <> snd x -> cnt r (map snd (removeP x l)) = cnt r (map snd l).
+Proof.
+  intros Hne. induction l as [|a l IH]; [reflexivity|].
+  unfold removeP in *. cbn [filter map]. destruct (pair_eqb_spec x a) as [->|E]; cbn [negb map]; rewrite ?cnt_cons, IH.
+  - destruct (N.eqb_spec r (snd a)); [congruence|reflexivity].
+  - reflexivity.
+Qed.
+
+Lemma nosent_verdict rid res : nosent (verdict rid res).
+Proof.
+  intros r H. unfold verdict in H. destruct res as [l t|c]; [|destruct (c =? E_CANCELED)]; cbn in H;
+    repeat destruct H as [H|H]; try discriminate; auto.
+Qed.
+
+Lemma nosent_map_fail {A} (g : A -> N) code l : nosent (map (fun a => OFail (g a) code) l).
+Proof. intros r H. apply in_map_iff in H. destruct H as [a [E _]]. discriminate. Qed.
+
+Lemma terms_verdict r rid res :
+  res <> RErr E_CANCELED -> terms r (verdict rid res) = if N.eqb r rid then 1%nat else 0%nat.
+Proof.
+  intros Hne. unfold verdict. destruct res as [l t|c].
+  - unfold terms. cbn [filter is_term]. rewrite (N.eqb_sym rid r). destruct (r =? rid); reflexivity.
+  - destruct (N.eqb_spec c E_CANCELED) as [->|E]; [congruence|]. apply terms_one_fail.
+Qed.
+
+(* settle: the request leaves the active set with a verdict, or silently if it was cancelled *)
+Lemma settle_Keeps cs s p rid res :
+  (res = RErr E_CANCELED -> In rid cs) ->
+  Keeps cs s (fst (settle s p rid res)) (snd (settle s p rid res)).
+Proof.
+  intros Hc. unfold settle. destruct (memN p (peers s) && memP (p, rid) (active s)); cbn [fst snd];
+    [|apply Keeps_refl].
+  constructor.
+  - intros r H. unfold owed, answered in *. unf. simp_sets.
+    destruct (N.eq_dec r rid) as [->|Hne].
+    + destruct res as [l t|c].
+      * right. left. rewrite terms_verdict by discriminate. rewrite N.eqb_refl. lia.
+      * destruct (N.eq_dec c E_CANCELED) as [->|E]; [right; right; apply Hc; reflexivity|].
+        right. left. rewrite terms_verdict by congruence. rewrite N.eqb_refl. lia.
+    + left. rewrite cnt_removeP_ne by (cbn [snd]; exact Hne). exact H.
+  - intros r H. destruct (nosent_verdict rid res r H).
+  - intros g H. left. exact H.
+Qed.
+
+Lemma complete_Keeps cs s f res :
+  (res = RErr E_CANCELED -> In (rid_f f) cs) ->
+  Keeps cs s (fst (complete s f res)) (snd (complete s f res)).
+Proof.
+  intros Hc. unfold complete.
+  pose proof (settle_Keeps cs (set_futs s (drop_fut f (futs s))) (f_peer f) (q_rid (f_req f)) res Hc) as [K1 K2 K3].
+  destruct (settle _ _ _ _) as [s' o]. cbn [fst snd] in *. constructor.
+  - intros r H. apply K1. unfold owed in *. unf. simp_sets. exact H.
+  - exact K2.
+  - intros g H. destruct (K3 g H) as [X|X]; [|right; exact X]. simp_sets.
+    unfold drop_fut in X. apply filter_In in X. left. tauto.
+Qed.
+
+Lemma complete_all_Keeps cs l : forall s res,
+  res <> RErr E_CANCELED -> Keeps cs s (fst (complete_all s l res)) (snd (complete_all s l res)).
+Proof.
+  induction l as [|f l IH]; intros s res Hne; cbn [complete_all fst snd]; [apply Keeps_refl|].
+  pose proof (complete_Keeps cs s f res (fun E => False_ind _ (Hne E))) as K.
+  destruct (complete s f res) as [s1 o1]. cbn [fst snd] in K.
+  specialize (IH s1 res Hne). destruct (complete_all s1 l res) as [s2 o2]. cbn [fst snd] in *.
+  exact (Keeps_trans _ _ _ _ _ _ K IH).
+Qed.
+
+Lemma send_Keeps cs s p dial len tag ok dok sid :
+  Keeps cs s (fst (h_send s p dial len tag ok dok sid)) (snd (h_send s p dial len tag ok dok sid)).
+Proof.
+  unfold h_send. simp_sets.
+  assert (T2 : forall c, answered (next_rid s) [OSent (next_rid s); OFail (next_rid s) c]).
+  { intros c. unfold answered. rewrite terms_cons_nonterm by reflexivity. rewrite terms_one_fail, N.eqb_refl. lia. }
+  assert (Hs : forall o r, In (OSent r) (OSent (next_rid s) :: o) -> nosent o -> r = next_rid s).
+  { intros o r [E|H] Hn; [congruence|destruct (Hn r H)]. }
+  assert (N1 : forall c, nosent [OFail (next_rid s) c]) by (intros c r [H|[]]; discriminate).
+  assert (N0 : nosent []) by (intros r []).
+  destruct (memN p (peers s)); [destruct ok|destruct dial; cbn [negb]; [destruct dok|]]; cbn [fst snd];
+    constructor; unfold owed in *; unf; simp_sets;
+    try (intros g H; left; exact H);
+    try (intros r H; left; rewrite ?map_app, ?cnt_app; lia).
+  - intros r H. apply (Hs [] r H) in N0. subst. left. rewrite map_app, cnt_app. cbn [map snd]. rewrite cnt_cons, N.eqb_refl. lia.
+  - intros r H. apply (Hs _ r H) in N1. subst. right. left. apply T2.
+  - intros r H. apply (Hs [] r H) in N0. subst. left. rewrite map_app, cnt_app. cbn [map rid_d snd q_rid]. rewrite cnt_cons, N.eqb_refl. lia.
+  - intros r H. apply (Hs _ r H) in N1. subst. right. left. apply T2.
+  - intros r H. apply (Hs _ r H) in N1. subst. right. left. apply T2.
+Qed.
+
+Lemma established_Keeps cs s p ok sid :
+  Keeps cs s (fst (h_established s p ok sid)) (snd (h_established s p ok sid)).
+Proof.
+  unfold h_established. destruct (memN p (peers s)); cbn [fst snd]; [apply Keeps_refl|]. simp_sets.
+  assert (P : forall r, (cnt r (map rid_d (filter (fun d : N * req => N.eqb (fst d) p) (dials s))) +
+                         cnt r (map rid_d (filter (fun d : N * req => negb (N.eqb (fst d) p)) (dials s))) = cd r s)%nat)
+    by (intros r; apply (cnt_part rid_d (fun d : N * req => fst d =? p))).
+  destruct (filter (fun d : N * req => fst d =? p) (dials s)) as [|d0 mine] eqn:M; [|destruct ok]; cbn [fst snd];
+    (constructor; [| |intros g H; left; exact H]); unfold owed, answered in *; unf; simp_sets.
+  - intros r H. left. specialize (P r). cbn [map] in P. rewrite cnt_nil in P. lia.
+  - intros r H. destruct H.
+  - intros r H. left. specialize (P r). rewrite map_app, cnt_app, map_map. cbn [snd].
+    change (map (fun x : N * req => q_rid (snd x)) (d0 :: mine)) with (map rid_d (d0 :: mine)). lia.
+  - intros r H. destruct H.
+  - intros r H. specialize (P r).
+    change (fun d : N * req => OFail (q_rid (snd d)) E_SUBSTREAM) with (fun d : N * req => OFail (rid_d d) E_SUBSTREAM).
+    rewrite (terms_map_fail rid_d).
+    destruct (Nat.eq_dec (cnt r (map rid_d (d0 :: mine))) 0); [left; lia|right; left; lia].
+  - intros r H. exfalso. revert H.
+    change (fun d : N * req => OFail (q_rid (snd d)) E_SUBSTREAM) with (fun d : N * req => OFail (rid_d d) E_SUBSTREAM).
+    apply nosent_map_fail.
+Qed.
+
+Lemma closed_Keeps cs s p : Keeps cs s (fst (h_closed s p)) (snd (h_closed s p)).
+Proof.
+  unfold h_closed. simp_sets. destruct (memN p (peers s)); cbn [fst snd].
+  - pose proof (fun r => cnt_part snd (fun a : N * N => fst a =? p) r (active s)) as P.
+    constructor; unfold owed, answered in *; unf; simp_sets.
+    + intros r H. specialize (P r). rewrite (terms_map_fail snd).
+      destruct (Nat.eq_dec (cnt r (map snd (filter (fun a : N * N => fst a =? p) (active s)))) 0);
+        [left; lia|right; left; lia].
+    + intros r H. exfalso. exact (nosent_map_fail snd _ _ r H).
+    + intros g H. left. exact H.
+  - constructor; unfold owed in *; unf; simp_sets; [intros r H; left; exact H|intros r []|intros g H; left; exact H].
+Qed.
+
+Lemma dialfail_Keeps cs s p : Keeps cs s (fst (h_dialfail s p)) (snd (h_dialfail s p)).
+Proof.
+  unfold h_dialfail. cbn [fst snd].
+  pose proof (fun r => cnt_part rid_d (fun d : N * req => fst d =? p) r (dials s)) as P.
+  constructor; unfold owed, answered in *; unf; simp_sets.
+  - intros r H. specialize (P r).
+    change (fun d : N * req => OFail (q_rid (snd d)) E_DIAL_FAILED) with (fun d : N * req => OFail (rid_d d) E_DIAL_FAILED).
+    rewrite (terms_map_fail rid_d).
+    destruct (Nat.eq_dec (cnt r (map rid_d (filter (fun d : N * req => fst d =? p) (dials s)))) 0);
+      [left; lia|right; left; lia].
+  - intros r H. exfalso. revert H.
+    change (fun d : N * req => OFail (q_rid (snd d)) E_DIAL_FAILED) with (fun d : N * req => OFail (rid_d d) E_DIAL_FAILED).
+    apply nosent_map_fail.
+  - intros g H. left. exact H.
+Qed.
+
+Lemma openfail_Keeps cs s sid u : Keeps cs s (fst (h_openfail s sid u)) (snd (h_openfail s sid u)).
+Proof.
+  unfold h_openfail. destruct (find_po sid (pouts s)) as [po|]; cbn [fst snd]; [|apply Keeps_refl].
+  constructor; unfold owed, answered in *; unf; simp_sets.
+  - intros r H. destruct (N.eq_dec r (q_rid (po_req po))) as [->|Hne].
+    + right. left. rewrite terms_one_fail, N.eqb_refl. lia.
+    + left. rewrite cnt_removeP_ne by (cbn [snd]; exact Hne). exact H.
+  - intros r [H|[]]. discriminate.
+  - intros g H. left. exact H.
+Qed.
+
+Lemma Keeps_set_pouts cs s l : Keeps cs s (set_pouts s l) [].
+Proof. constructor; unfold owed; unf; simp_sets; [intros r H; left; exact H|intros r []|intros g H; left; exact H]. Qed.
+
+Lemma opened_Keeps cs cf0 s sid c gate now :
+  Keeps cs s (fst (h_opened cf0 s sid c gate now)) (snd (h_opened cf0 s sid c gate now)).
+Proof.
+  unfold h_opened. destruct (find_po sid (pouts s)) as [po|]; cbn [fst snd]; [|apply Keeps_refl].
+  assert (Hsettle : forall res, res <> RErr E_CANCELED ->
+     Keeps cs s (fst (settle (set_pouts s (drop_po po (pouts s))) (po_peer po) (q_rid (po_req po)) res))
+                (snd (settle (set_pouts s (drop_po po (pouts s))) (po_peer po) (q_rid (po_req po)) res))).
+  { intros res Hne. change (snd (settle (set_pouts s (drop_po po (pouts s))) (po_peer po) (q_rid (po_req po)) res))
+      with ([] ++ snd (settle (set_pouts s (drop_po po (pouts s))) (po_peer po) (q_rid (po_req po)) res)).
+    eapply Keeps_trans; [apply Keeps_set_pouts|apply settle_Keeps]. intros E. congruence. }
+  assert (Hpush : forall g o, f_cancel g = false -> nosent o ->
+     Keeps cs s (set_futs (set_pouts s (drop_po po (pouts s))) (futs (set_pouts s (drop_po po (pouts s))) ++ [g])) o).
+  { intros g o Hg Hn. constructor; unfold owed; unf; simp_sets.
+    - intros r H. left. exact H.
+    - intros r H. destruct (Hn r H).
+    - intros g' H. apply in_app_or in H. destruct H as [H|[<-|[]]]; [left; exact H|right; left; exact Hg]. }
+  destruct (max_size cf0 <? q_len (po_req po)); [apply Hsettle; discriminate|].
+  destruct gate as [|[g|g|]]; try (apply Hsettle; discriminate); apply Hpush; try reflexivity.
+  - intros r [].
+  - intros r [H|[]]. discriminate.
+Qed.
+
+Lemma Keeps_cons_wire cs s s' c l t o : Keeps cs s s' o -> Keeps cs s s' (OWire c l t :: o).
+Proof.
+  intros [K1 K2 K3]. constructor; unfold answered in *.
+  - intros r H. rewrite terms_cons_wire. exact (K1 r H).
+  - intros r [H|H]; [discriminate|]. rewrite terms_cons_wire. exact (K2 r H).
+  - exact K3.
+Qed.
+
+Lemma unblock_Keeps cs cf0 s c now :
+  (forall f, In f (futs s) -> f_cancel f = true -> In (rid_f f) cs) ->
+  Keeps cs s (fst (fut_unblock cf0 s c now)) (snd (fut_unblock cf0 s c now)).
+Proof.
+  intros G. unfold fut_unblock. destruct (find_fut c (futs s)) as [f|] eqn:F; cbn [fst snd]; [|apply Keeps_refl].
+  destruct (f_wait f); cbn [fst snd]; [apply Keeps_refl|].
+  destruct (f_cancel f) eqn:C.
+  - pose proof (complete_Keeps cs s f (RErr E_CANCELED) (fun _ => G f (find_fut_in _ _ _ F) C)) as K.
+    destruct (complete s f (RErr E_CANCELED)) as [s1 o]. cbn [fst snd] in *. apply Keeps_cons_wire. exact K.
+  - cbn [fst snd]. constructor; unfold owed; unf; simp_sets.
+    + intros r H. left. exact H.
+    + intros r [H|[]]. discriminate.
+    + intros g H. unfold to_wait in H. apply in_map_iff in H. destruct H as [g0 [E H]].
+      destruct (f_chan g0 =? c); subst g; [right; left; reflexivity|left; exact H].
+Qed.
+
+Lemma breakw_Keeps cs s c : Keeps cs s (fst (fut_breakw s c)) (snd (fut_breakw s c)).
+Proof.
+  unfold fut_breakw. destruct (find_fut c (futs s)) as [f|]; cbn [fst snd]; [|apply Keeps_refl].
+  destruct (f_wait f); cbn [fst snd]; [apply Keeps_refl|]. apply complete_Keeps. discriminate.
+Qed.
+
+Lemma read_Keeps cs s c res :
+  res <> RErr E_CANCELED -> Keeps cs s (fst (fut_read s c res)) (snd (fut_read s c res)).
+Proof.
+  intros Hne. unfold fut_read. destruct (find_fut c (futs s)) as [f|]; cbn [fst snd]; [|apply Keeps_refl].
+  destruct (f_wait f); cbn [fst snd]; [|apply Keeps_refl]. apply complete_Keeps. intros E. congruence.
+Qed.
+
+Lemma cancel_Keeps cs s rid : Keeps (rid :: cs) s (fst (h_cancel s rid)) (snd (h_cancel s rid)).
+Proof.
+  unfold h_cancel. destruct (find _ (futs s)) as [f|] eqn:F; cbn [fst snd]; [|apply Keeps_refl].
+  apply find_some in F. destruct F as [Hf Hp]. apply andb_prop in Hp. destruct Hp as [Hr _]. apply N.eqb_eq in Hr.
+  destruct (f_wait f); cbn [fst snd].
+  - apply complete_Keeps. intros _. left. unfold rid_f. symmetry. exact Hr.
+  - constructor; unfold owed; unf; simp_sets.
+    + intros r H. left. exact H.
+    + intros r [].
+    + intros g H. unfold mark_cancel in H. apply in_map_iff in H. destruct H as [g0 [E H]].
+      destruct (N.eqb_spec (q_rid (f_req g0)) rid) as [E2|E2]; subst g; [|left; exact H].
+      right. right. left. unfold rid_f. cbn [f_req]. symmetry. exact E2.
+Qed.
+
+Lemma inread_nosent s c good len tag : nosent (snd (h_inread s c good len tag)).
+Proof.
+  unfold h_inread. destruct (find_rd c (rdrs s)) as [rd|]; cbn [fst snd]; [|intros r []].
+  destruct (memN (r_peer rd) (peers _) && memP _ _); [destruct good|]; cbn [fst snd];
+    intros r H; cbn in H; repeat destruct H as [H|H]; try discriminate; auto.
+Qed.
+
+Lemma uresp_nosent cf0 s irid len tag gate now : nosent (snd (h_uresp cf0 s irid len tag gate now)).
+Proof.
+  unfold h_uresp. destruct (find_rs irid (rsps s)) as [rs|]; cbn [fst snd]; [|intros r []].
+  destruct (s_w rs); cbn [fst snd]; [intros r []|].
+  destruct (max_size cf0 <? len); [|destruct gate as [|[g|g|]]]; cbn [fst snd];
+    intros r H; cbn in H; repeat destruct H as [H|H]; try discriminate; auto.
+Qed.
+
+Lemma rsp_gate_nosent s c ok : nosent (snd (rsp_gate s c ok)).
+Proof.
+  unfold rsp_gate. destruct (find _ (rsps s)) as [rs|]; cbn [fst snd]; [|intros r []].
+  destruct (s_w rs) as [[[l t] d]|]; cbn [fst snd]; [|intros r []].
+  destruct ok; intros r H; cbn in H; repeat destruct H as [H|H]; try discriminate; auto.
+Qed.
+
+Definition cs_step (cs : list N) (e : ev) : list N :=
+  match e with ECancel r => r :: cs | _ => cs end.
+
+Lemma Keeps_app_nil cs s s' o : Keeps cs s s' (o ++ []) -> Keeps cs s s' o.
+Proof. rewrite app_nil_r. auto. Qed.
+
+Lemma step_Keeps cf0 s en e cs :
+  (forall f, In f (futs s) -> f_cancel f = true -> In (rid_f f) cs) ->
+  Keeps (cs_step cs e) s (fst (fst (fst (step cf0 (s, en) e)))) (snd (fst (step cf0 (s, en) e))).
+Proof.
+  intros G. destruct e; cbn [step cs_step].
+  - pose proof (send_Keeps cs s p dial len tag (open_ok p en) (p <? ndial cf0) (next_sid en)) as H.
+    destruct (h_send _ _ _ _ _ _ _ _) as [s1 o]. exact H.
+  - pose proof (cancel_Keeps cs s rid) as H. destruct (h_cancel s rid) as [s1 o]. exact H.
+  - destruct (conn_of p en); cbn [fst snd]; [apply Keeps_refl|].
+    pose proof (established_Keeps cs s p (negb broken) (next_sid en)) as H.
+    destruct (h_established _ _ _ _) as [s1 o]. exact H.
+  - destruct (conn_of p en); cbn [fst snd]; [|apply Keeps_refl].
+    pose proof (closed_Keeps cs s p) as H. destruct (h_closed s p) as [s1 o]. exact H.
+  - pose proof (dialfail_Keeps cs s p) as H. destruct (h_dialfail s p) as [s1 o]. exact H.
+  - destruct (nth_mod k (opens en)) as [[sid q]|]; cbn [fst snd]; [|apply Keeps_refl].
+    pose proof (opened_Keeps cs cf0 s sid (N.of_nat (length (chans en))) (N.min gate 2) (now en)) as H.
+    destruct (h_opened _ _ _ _ _ _) as [s1 o]. exact H.
+  - destruct (nth_mod k (opens en)) as [[sid q]|]; cbn [fst snd]; [|apply Keeps_refl].
+    pose proof (openfail_Keeps cs s sid unsupported) as H. destruct (h_openfail _ _ _) as [s1 o]. exact H.
+  - destruct (chans en) as [|ch0 chs] eqn:CH; cbn [fst snd]; [apply Keeps_refl|].
+    destruct (nth_error _ _) as [ch|]; cbn [fst snd]; [|apply Keeps_refl].
+    destruct (c_gate ch =? 0); cbn [fst snd]; [|apply Keeps_refl].
+    pose proof (unblock_Keeps cs cf0 s (k mod N.of_nat (length (ch0 :: chs))) (now en) G) as H.
+    destruct (fut_unblock _ _ _ _) as [s1 o1]. cbn [fst snd] in H.
+    pose proof (rsp_gate_same s1 (k mod N.of_nat (length (ch0 :: chs))) true) as [H2 _].
+    pose proof (rsp_gate_nosent s1 (k mod N.of_nat (length (ch0 :: chs))) true) as N2.
+    destruct (rsp_gate _ _ _) as [s2 o2]. cbn [fst snd] in *.
+    exact (Keeps_trans _ _ _ _ _ _ H (Keeps_same cs _ _ _ H2 N2)).
+  - destruct (chans en) as [|ch0 chs] eqn:CH; cbn [fst snd]; [apply Keeps_refl|].
+    destruct (nth_error _ _) as [ch|]; cbn [fst snd]; [|apply Keeps_refl].
+    destruct (c_gate ch =? 2); cbn [fst snd]; [apply Keeps_refl|].
+    pose proof (breakw_Keeps cs s (k mod N.of_nat (length (ch0 :: chs)))) as H.
+    destruct (fut_breakw _ _) as [s1 o1]. cbn [fst snd] in H.
+    pose proof (rsp_gate_same s1 (k mod N.of_nat (length (ch0 :: chs))) false) as [H2 _].
+    pose proof (rsp_gate_nosent s1 (k mod N.of_nat (length (ch0 :: chs))) false) as N2.
+    destruct (rsp_gate _ _ _) as [s2 o2]. cbn [fst snd] in *.
+    exact (Keeps_trans _ _ _ _ _ _ H (Keeps_same cs _ _ _ H2 N2)).
+  - destruct (chans en) as [|ch0 chs] eqn:CH; cbn [fst snd]; [apply Keeps_refl|].
+    destruct (nth_error _ _) as [ch|]; cbn [fst snd]; [|apply Keeps_refl].
+    destruct (c_out ch && c_seen ch); cbn [fst snd]; [|apply Keeps_refl].
+    match goal with |- context [fut_read s ?c ?r] =>
+      assert (Hne : r <> RErr E_CANCELED) by (destruct (len <=? max_size cf0); discriminate);
+      pose proof (read_Keeps cs s c r Hne) as H; destruct (fut_read s c r) as [s1 o] end. exact H.
+  - destruct (chans en) as [|ch0 chs] eqn:CH; cbn [fst snd]; [apply Keeps_refl|].
+    destruct (nth_error _ _) as [ch|]; cbn [fst snd]; [|apply Keeps_refl].
+    destruct (c_out ch); [destruct (c_seen ch)|]; cbn [fst snd]; try apply Keeps_refl.
+    + match goal with |- context [fut_read s ?c ?r] =>
+        assert (Hne : r <> RErr E_CANCELED) by discriminate;
+        pose proof (read_Keeps cs s c r Hne) as H; destruct (fut_read s c r) as [s1 o] end. exact H.
+    + match goal with |- context [h_inread s ?c ?g ?l ?t] =>
+        pose proof (inread_same s c g l t) as [H _]; pose proof (inread_nosent s c g l t) as Hn;
+        destruct (h_inread s c g l t) as [s1 o] end.
+      exact (Keeps_same cs _ _ _ H Hn).
+  - destruct (chans en) as [|ch0 chs] eqn:CH; cbn [fst snd]; [apply Keeps_refl|].
+    destruct (nth_error _ _) as [ch|]; cbn [fst snd]; [|apply Keeps_refl].
+    destruct (c_out ch); [destruct (c_seen ch)|]; cbn [fst snd]; try apply Keeps_refl.
+    + match goal with |- context [fut_read s ?c ?r] =>
+        assert (Hne : r <> RErr E_CANCELED) by discriminate;
+        pose proof (read_Keeps cs s c r Hne) as H; destruct (fut_read s c r) as [s1 o] end. exact H.
+    + match goal with |- context [h_inread s ?c ?g ?l ?t] =>
+        pose proof (inread_same s c g l t) as [H _]; pose proof (inread_nosent s c g l t) as Hn;
+        destruct (h_inread s c g l t) as [s1 o] end.
+      exact (Keeps_same cs _ _ _ H Hn).
+  - assert (Hne : RErr E_TIMEOUT <> RErr E_CANCELED) by discriminate.
+    pose proof (complete_all_Keeps cs (filter (fun f => f_dl f <=? now en + dt) (futs s)) s _ Hne) as H.
+    unfold fut_advance. destruct (complete_all _ _ _) as [s1 o]. cbn [fst snd] in *.
+    apply Keeps_app_nil. eapply Keeps_trans; [exact H|]. apply Keeps_same; [|intros r []].
+    unfold rsp_advance, same_ledger. simp_sets. repeat split; lia.
+  - destruct (conn_of p en); cbn [fst snd]; [|apply Keeps_refl].
+    pose proof (inopen_same cf0 s p (N.of_nat (length (chans en)))) as [H T].
+    destruct (h_inopen _ _ _ _) as [s1 o]. cbn [fst snd] in *. subst o.
+    apply Keeps_same; [exact H|intros r []].
+  - destruct (chans en) as [|ch0 chs] eqn:CH; cbn [fst snd]; [apply Keeps_refl|].
+    destruct (nth_error _ _) as [ch|]; cbn [fst snd]; [|apply Keeps_refl].
+    destruct (negb (c_out ch) && negb (c_seen ch)); cbn [fst snd]; [|apply Keeps_refl].
+    match goal with |- context [h_inread s ?c ?g ?l ?t] =>
+      pose proof (inread_same s c g l t) as [H _]; pose proof (inread_nosent s c g l t) as Hn;
+      destruct (h_inread s c g l t) as [s1 o] end.
+    exact (Keeps_same cs _ _ _ H Hn).
+  - destruct (nth_mod k (hpend en)) as [irid|]; cbn [fst snd]; [|apply Keeps_refl].
+    match goal with |- context [h_uresp cf0 s ?a ?b ?c ?d ?e] =>
+      pose proof (uresp_same cf0 s a b c d e) as [H _]; pose proof (uresp_nosent cf0 s a b c d e) as Hn;
+      destruct (h_uresp cf0 s a b c d e) as [s1 o] end.
+    exact (Keeps_same cs _ _ _ H Hn).
+  - destruct (nth_mod k (hpend en)) as [irid|]; cbn [fst snd]; [|apply Keeps_refl].
+    unfold h_urej. cbn [fst snd]. apply Keeps_same; [|intros r []].
+    unfold same_ledger. simp_sets. repeat split; lia.
+  - cbn [fst snd]. apply Keeps_refl.
+Qed.
+
+Definition cancel_reqs (evs : list ev) : list N :=
+  flat_map (fun e => match e with ECancel r => [r] | _ => [] end) evs.
+
+Lemma run_Inv2 cf0 evs : forall st tr cs,
+  Inv2 cs (fst st) tr ->
+  exists cs', Inv2 cs' (fst (fst (run cf0 st evs))) (tr ++ snd (run cf0 st evs)) /\
+              (forall r, In r cs' -> In r cs \/ In r (cancel_reqs evs)).
+Proof.
+  induction evs as [|e evs IH]; intros [s en] tr cs I2; cbn [run fst snd].
+  - exists cs. rewrite app_nil_r. split; [exact I2|auto].
+  - pose proof (step_Keeps cf0 s en e cs (inv_cancel _ _ _ I2)) as K.
+    destruct (step cf0 (s, en) e) as [[st1 o] tg]. cbn [fst snd] in K.
+    assert (Hi : incl cs (cs_step cs e)) by (destruct e; cbn [cs_step]; try apply incl_refl; apply incl_tl, incl_refl).
+    pose proof (Keeps_Inv2 _ _ _ _ _ _ I2 K Hi) as I2'.
+    destruct (IH st1 (tr ++ o) _ I2') as [cs' [J Hc]].
+    destruct (run cf0 st1 evs) as [st2 o2]. cbn [fst snd] in *.
+    exists cs'. rewrite app_assoc. split; [exact J|].
+    intros r Hr. destruct (Hc r Hr) as [H|H].
+    + destruct e; cbn [cs_step cancel_reqs flat_map] in *; try (left; exact H); try (right; exact H).
+      destruct H as [<-|H]; [right; left; reflexivity|left; exact H].
+    + right. cbn [cancel_reqs flat_map]. apply in_or_app. right. exact H.
+Qed.
+
+Lemma Inv2_init : Inv2 [] init_pst [].
+Proof. constructor; [intros r []|intros f []]. Qed.
+
+(* Nothing is owed: no request waits for a dial and no request is active at any peer. *)
+Definition settled (s : pst) : Prop := dials s = [] /\ active s = [].
+
+Theorem exactly_one_settled cf0 evs r :
+  let res := run cf0 (init_pst, init_env) evs in
+  settled (fst (fst res)) ->
+  In (OSent r) (snd res) ->
+  terms r (snd res) = 1%nat \/ In r (cancel_reqs evs).
+Proof.
+  intros res [Hd Ha] Hs.
+  destruct (run_Inv2 cf0 evs (init_pst, init_env) [] [] Inv2_init) as [cs' [J Hc]].
+  cbn [app] in J. fold res in J.
+  pose proof (at_most_one cf0 evs r) as M. fold res in M.
+  destruct (inv_sent _ _ _ J r Hs) as [A|[A|A]].
+  - exfalso. unfold owed, cd, ca in A. rewrite Hd, Ha in A. cbn in A. lia.
+  - left. unfold answered in A. lia.
+  - right. destruct (Hc r A) as [[]|H]. exact H.
+Qed.
+
+(* ------------------------------------------------------------------ inbound bound *)
+
+Definition same_io (s s' : pst) : Prop := rdrs s' = rdrs s /\ rsps s' = rsps s.
+
+Ltac io_crush :=
+  repeat match goal with
+         | |- context [match ?x with _ => _ end] => destruct x
+         end; cbn; split; reflexivity.
+
+Lemma settle_io s p rid res : same_io s (fst (settle s p rid res)).
+Proof. unfold settle, same_io. io_crush. Qed.
+Lemma complete_io s f res : same_io s (fst (complete s f res)).
+Proof. unfold complete. destruct (settle_io (set_futs s (drop_fut f (futs s))) (f_peer f) (q_rid (f_req f)) res) as [A B].
+  split; [rewrite A|rewrite B]; reflexivity. Qed.
+Lemma complete_all_io l : forall s res, same_io s (fst (complete_all s l res)).
+Proof.
+  induction l as [|f l IH]; intros s res; cbn [complete_all fst]; [split; reflexivity|].
+  pose proof (complete_io s f res) as [A B]. destruct (complete s f res) as [s1 o1]. cbn [fst] in *.
+  pose proof (IH s1 res) as [C D]. destruct (complete_all s1 l res) as [s2 o2]. cbn [fst] in *.
+  split; congruence.
+Qed.
+Lemma send_io s p dial len tag ok dok sid : same_io s (fst (h_send s p dial len tag ok dok sid)).
+Proof. unfold h_send, same_io. io_crush. Qed.
+Lemma established_io s p ok sid : same_io s (fst (h_established s p ok sid)).
+Proof. unfold h_established, same_io. io_crush. Qed.
+Lemma closed_io s p : same_io s (fst (h_closed s p)).
+Proof. unfold h_closed, same_io. io_crush. Qed.
+Lemma dialfail_io s p : same_io s (fst (h_dialfail s p)).
+Proof. unfold h_dialfail, same_io. cbn. split; reflexivity. Qed.
+Lemma openfail_io s sid u : same_io s (fst (h_openfail s sid u)).
+Proof. unfold h_openfail, same_io. io_crush. Qed.
+Lemma opened_io cf0 s sid c gate now : same_io s (fst (h_opened cf0 s sid c gate now)).
+Proof.
+  unfold h_opened. destruct (find_po sid (pouts s)) as [po|]; [|split; reflexivity].
+  assert (H : forall res, same_io s (fst (settle (set_pouts s (drop_po po (pouts s))) (po_peer po) (q_rid (po_req po)) res))).
+  { intros res. destruct (settle_io (set_pouts s (drop_po po (pouts s))) (po_peer po) (q_rid (po_req po)) res) as [A B].
+    split; [rewrite A|rewrite B]; reflexivity. }
+  destruct (max_size cf0 <? q_len (po_req po)); [apply H|].
+  destruct gate as [|[g|g|]]; try apply H; split; reflexivity.
+Qed.
+Lemma unblock_io cf0 s c now : same_io s (fst (fut_unblock cf0 s c now)).
+Proof.
+  unfold fut_unblock. destruct (find_fut c (futs s)) as [f|]; [|split; reflexivity].
+  destruct (f_wait f); [split; reflexivity|]. destruct (f_cancel f); [|split; reflexivity].
+  pose proof (complete_io s f (RErr E_CANCELED)) as H. destruct (complete s f _) as [s1 o]. exact H.
+Qed.
+Lemma breakw_io s c : same_io s (fst (fut_breakw s c)).
+Proof.
+  unfold fut_breakw. destruct (find_fut c (futs s)) as [f|]; [|split; reflexivity].
+  destruct (f_wait f); [split; reflexivity|apply complete_io].
+Qed.
+Lemma read_io s c res : same_io s (fst (fut_read s c res)).
+Proof.
+  unfold fut_read. destruct (find_fut c (futs s)) as [f|]; [|split; reflexivity].
+  destruct (f_wait f); [apply complete_io|split; reflexivity].
+Qed.
+Lemma cancel_io s rid : same_io s (fst (h_cancel s rid)).
+Proof.
+  unfold h_cancel. destruct (find _ (futs s)) as [f|]; [|split; reflexivity].
+  destruct (f_wait f); [apply complete_io|split; reflexivity].
+Qed.
+
+Definition load_ok (cf0 : cfg) (s : pst) : Prop :=
+  match max_inb cf0 with Some m => inbound_load s <= m | None => True end.
+
+Lemma load_same_io cf0 s s' : same_io s s' -> load_ok cf0 s -> load_ok cf0 s'.
+Proof. intros [A B]. unfold load_ok, inbound_load. rewrite A, B. auto. Qed.
+
+Lemma load_le cf0 s s' : inbound_load s' <= inbound_load s -> load_ok cf0 s -> load_ok cf0 s'.
+Proof. unfold load_ok. destruct (max_inb cf0); [lia|auto]. Qed.
+
+Lemma filter_len {A} (g : A -> bool) l : (length (filter g l) <= length l)%nat.
+Proof. induction l as [|a l IH]; cbn; [lia|destruct (g a); cbn; lia]. Qed.
+
+Lemma inopen_load cf0 s p c : load_ok cf0 s -> load_ok cf0 (fst (h_inopen cf0 s p c)).
+Proof.
+  unfold h_inopen, load_ok. destruct (max_inb cf0) as [m|] eqn:M; [|auto].
+  destruct (m <=? inbound_load s) eqn:E; cbn [fst]; [auto|]. apply N.leb_gt in E.
+  simp_sets. destruct (memN p (peers s)); cbn [fst]; unfold inbound_load in *; simp_sets; intros H;
+    rewrite ?app_length; cbn [length]; lia.
+Qed.
+
+Lemma find_drop_len {A} (g : A -> bool) l x :
+  find g l = Some x -> (S (length (filter (fun y => negb (g y)) l)) <= length l)%nat.
+Proof.
+  induction l as [|a l IH]; [discriminate|]. cbn [find filter]. destruct (g a); cbn [negb].
+  - intros _. pose proof (filter_len (fun y => negb (g y)) l). cbn [length]. lia.
+  - intros H. specialize (IH H). cbn [length]. lia.
+Qed.
+
+Lemma inread_load cf0 s c good len tag : load_ok cf0 s -> load_ok cf0 (fst (h_inread s c good len tag)).
+Proof.
+  unfold h_inread. destruct (find_rd c (rdrs s)) as [rd|] eqn:F; cbn [fst]; [|auto].
+  pose proof (find_drop_len _ _ _ F) as L. apply load_le.
+  simp_sets. destruct (memN (r_peer rd) (peers s) && memP _ _); [destruct good|]; cbn [fst];
+    unfold inbound_load, drop_rd in *; simp_sets; rewrite ?app_length; cbn [length]; lia.
+Qed.
+
+Lemma uresp_load cf0 s irid len tag gate now : load_ok cf0 s -> load_ok cf0 (fst (h_uresp cf0 s irid len tag gate now)).
+Proof.
+  unfold h_uresp. destruct (find_rs irid (rsps s)) as [rs|]; cbn [fst]; [|auto].
+  destruct (s_w rs); cbn [fst]; [auto|]. apply load_le.
+  pose proof (filter_len (fun r => negb (s_irid r =? irid)) (rsps s)).
+  destruct (max_size cf0 <? len); [|destruct gate as [|[g|g|]]]; cbn [fst]; unfold inbound_load, drop_rs in *; simp_sets;
+    rewrite ?map_length; lia.
+Qed.
+
+Lemma rsp_gate_load cf0 s c ok : load_ok cf0 s -> load_ok cf0 (fst (rsp_gate s c ok)).
+Proof.
+  unfold rsp_gate. destruct (find _ (rsps s)) as [rs|]; cbn [fst]; [|auto].
+  destruct (s_w rs) as [[[l t] d]|]; cbn [fst]; [|auto]. apply load_le.
+  pose proof (filter_len (fun r => negb (s_irid r =? s_irid rs)) (rsps s)).
+  unfold inbound_load, drop_rs in *; simp_sets; lia.
+Qed.
+
+Lemma step_load cf0 s en e :
+  load_ok cf0 s -> load_ok cf0 (fst (fst (fst (step cf0 (s, en) e)))).
+Proof.
+  intros L. destruct e; cbn [step].
+  - pose proof (send_io s p dial len tag (open_ok p en) (p <? ndial cf0) (next_sid en)) as H.
+    destruct (h_send _ _ _ _ _ _ _ _) as [s1 o]. exact (load_same_io _ _ _ H L).
+  - pose proof (cancel_io s rid) as H. destruct (h_cancel s rid) as [s1 o]. exact (load_same_io _ _ _ H L).
+  - destruct (conn_of p en); cbn [fst]; [exact L|].
+    pose proof (established_io s p (negb broken) (next_sid en)) as H.
+    destruct (h_established _ _ _ _) as [s1 o]. exact (load_same_io _ _ _ H L).
+  - destruct (conn_of p en); cbn [fst]; [|exact L].
+    pose proof (closed_io s p) as H. destruct (h_closed s p) as [s1 o]. exact (load_same_io _ _ _ H L).
+  - pose proof (dialfail_io s p) as H. destruct (h_dialfail s p) as [s1 o]. exact (load_same_io _ _ _ H L).
+  - destruct (nth_mod k (opens en)) as [[sid q]|]; cbn [fst]; [|exact L].
+    pose proof (opened_io cf0 s sid (N.of_nat (length (chans en))) (N.min gate 2) (now en)) as H.
+    destruct (h_opened _ _ _ _ _ _) as [s1 o]. exact (load_same_io _ _ _ H L).
+  - destruct (nth_mod k (opens en)) as [[sid q]|]; cbn [fst]; [|exact L].
+    pose proof (openfail_io s sid unsupported) as H. destruct (h_openfail _ _ _) as [s1 o]. exact (load_same_io _ _ _ H L).
+  - destruct (chans en) as [|ch0 chs] eqn:CH; cbn [fst]; [exact L|].
+    destruct (nth_error _ _) as [ch|]; cbn [fst]; [|exact L].
+    destruct (c_gate ch =? 0); cbn [fst]; [|exact L].
+    pose proof (unblock_io cf0 s (k mod N.of_nat (length (ch0 :: chs))) (now en)) as H.
+    destruct (fut_unblock _ _ _ _) as [s1 o1].
+    pose proof (rsp_gate_load cf0 s1 (k mod N.of_nat (length (ch0 :: chs))) true (load_same_io _ _ _ H L)) as H2.
+    destruct (rsp_gate _ _ _) as [s2 o2]. exact H2.
+  - destruct (chans en) as [|ch0 chs] eqn:CH; cbn [fst]; [exact L|].
+    destruct (nth_error _ _) as [ch|]; cbn [fst]; [|exact L].
+    destruct (c_gate ch =? 2); cbn [fst]; [exact L|].
+    pose proof (breakw_io s (k mod N.of_nat (length (ch0 :: chs)))) as H.
+    destruct (fut_breakw _ _) as [s1 o1].
+    pose proof (rsp_gate_load cf0 s1 (k mod N.of_nat (length (ch0 :: chs))) false (load_same_io _ _ _ H L)) as H2.
+    destruct (rsp_gate _ _ _) as [s2 o2]. exact H2.
+  - destruct (chans en) as [|ch0 chs] eqn:CH; cbn [fst]; [exact L|].
+    destruct (nth_error _ _) as [ch|]; cbn [fst]; [|exact L].
+    destruct (c_out ch && c_seen ch); cbn [fst]; [|exact L].
+    match goal with |- context [fut_read s ?c ?r] =>
+      pose proof (read_io s c r) as H; destruct (fut_read s c r) as [s1 o] end. exact (load_same_io _ _ _ H L).
+  - destruct (chans en) as [|ch0 chs] eqn:CH; cbn [fst]; [exact L|].
+    destruct (nth_error _ _) as [ch|]; cbn [fst]; [|exact L].
+    destruct (c_out ch); [destruct (c_seen ch)|]; cbn [fst]; try exact L.
+    + match goal with |- context [fut_read s ?c ?r] =>
+        pose proof (read_io s c r) as H; destruct (fut_read s c r) as [s1 o] end. exact (load_same_io _ _ _ H L).
+    + match goal with |- context [h_inread s ?c ?g ?l ?t] =>
+        pose proof (inread_load cf0 s c g l t L) as H; destruct (h_inread s c g l t) as [s1 o] end. exact H.
+  - destruct (chans en) as [|ch0 chs] eqn:CH; cbn [fst]; [exact L|].
+    destruct (nth_error _ _) as [ch|]; cbn [fst]; [|exact L].
+    destruct (c_out ch); [destruct (c_seen ch)|]; cbn [fst]; try exact L.
+    + match goal with |- context [fut_read s ?c ?r] =>
+        pose proof (read_io s c r) as H; destruct (fut_read s c r) as [s1 o] end. exact (load_same_io _ _ _ H L).
+    + match goal with |- context [h_inread s ?c ?g ?l ?t] =>
+        pose proof (inread_load cf0 s c g l t L) as H; destruct (h_inread s c g l t) as [s1 o] end. exact H.
+  - pose proof (complete_all_io (filter (fun f => f_dl f <=? now en + dt) (futs s)) s (RErr E_TIMEOUT)) as H.
+    unfold fut_advance. destruct (complete_all _ _ _) as [s1 o]. cbn [fst] in *.
+    apply (load_le cf0 s1); [|exact (load_same_io _ _ _ H L)].
+    unfold rsp_advance, inbound_load. simp_sets.
+    pose proof (filter_len (fun r => match s_w r with Some (_, _, dl) => negb (dl <=? now en + dt) | None => true end) (rsps s1)).
+    lia.
+  - destruct (conn_of p en); cbn [fst]; [|exact L].
+    pose proof (inopen_load cf0 s p (N.of_nat (length (chans en))) L) as H.
+    destruct (h_inopen _ _ _ _) as [s1 o]. exact H.
+  - destruct (chans en) as [|ch0 chs] eqn:CH; cbn [fst]; [exact L|].
+    destruct (nth_error _ _) as [ch|]; cbn [fst]; [|exact L].
+    destruct (negb (c_out ch) && negb (c_seen ch)); cbn [fst]; [|exact L].
+    match goal with |- context [h_inread s ?c ?g ?l ?t] =>
+      pose proof (inread_load cf0 s c g l t L) as H; destruct (h_inread s c g l t) as [s1 o] end. exact H.
+  - destruct (nth_mod k (hpend en)) as [irid|]; cbn [fst]; [|exact L].
+    match goal with |- context [h_uresp cf0 s ?a ?b ?c ?d ?e] =>
+      pose proof (uresp_load cf0 s a b c d e L) as H; destruct (h_uresp cf0 s a b c d e) as [s1 o] end. exact H.
+  - destruct (nth_mod k (hpend en)) as [irid|]; cbn [fst]; [|exact L].
+    unfold h_urej. cbn [fst]. apply (load_le cf0 s); [|exact L].
+    unfold inbound_load, drop_rs. simp_sets. pose proof (filter_len (fun r => negb (s_irid r =? irid)) (rsps s)). lia.
+  - cbn [fst]. exact L.
+Qed.
+
+Theorem inbound_bound cf0 evs :
+  load_ok cf0 (fst (fst (run cf0 (init_pst, init_env) evs))).
+Proof.
+  assert (H : forall st, load_ok cf0 (fst st) -> load_ok cf0 (fst (fst (run cf0 st evs)))).
+  { induction evs as [|e evs IH]; intros [s en] L; cbn [run fst]; [exact L|].
+    pose proof (step_load cf0 s en e L) as H. destruct (step cf0 (s, en) e) as [[st1 o] tg]. cbn [fst] in H.
+    specialize (IH st1 H). destruct (run cf0 st1 evs) as [st2 o2]. exact IH. }
+  apply H. unfold load_ok. cbn. destruct (max_inb cf0); [apply N.le_0_l|exact I].
 Qed.
